@@ -117,8 +117,19 @@ impl<'input> Scalar<'input> {
             ref suffix,
         }) = tag
         {
-            if handle == "tag:yaml.org,2002:" {
-                match suffix.as_ref() {
+            // A tag is its handle followed by its suffix, wherever the two are cut: `!!int`,
+            // `!<tag:yaml.org,2002:int>` and `!y!2002:int` under `%TAG !y! tag:yaml.org,` are
+            // the same tag.
+            const CORE: &str = "tag:yaml.org,2002:";
+            let spliced;
+            let core_suffix = if handle == CORE {
+                Some(suffix.as_ref())
+            } else {
+                spliced = format!("{handle}{suffix}");
+                spliced.strip_prefix(CORE)
+            };
+            if let Some(core_suffix) = core_suffix {
+                match core_suffix {
                     "bool" => v.parse::<bool>().ok().map(Self::Boolean),
                     "int" => v.parse::<i64>().ok().map(Self::Integer),
                     "float" => parse_f64(&v).map(OrderedFloat).map(Self::FloatingPoint),
